@@ -29,7 +29,7 @@ type c05Case struct {
 
 // conn_close: the connection (client end) or the serving context (server end) is closed locally by
 // the application at the k-th I/O call, from another goroutine.
-var faultKinds = []string{"read_err", "read_err_data", "write_err", "peer_close", "local_close", "conn_close"}
+var faultKinds = []string{"read_err", "read_err_data", "read_err_soft", "write_err", "peer_close", "local_close", "conn_close"}
 
 // genWorkload draws deadlock-free RPCs (each side's sender and receiver never wait for each other).
 func genWorkload(t *rapid.T, cfg sim.Config, max int) []sim.RPC {
